@@ -177,6 +177,7 @@ def finish(prop, results, not_run, opts, meta, t0, tier, seed):
     labels = {}
     stats = {}
     incomplete = 0
+    incomplete_keys = []
     for r in results:
         if "harness_error" in r:
             harness_errors.append({"scenario": scenario_key(r.get("harness", "?"), r.get("desc", {})),
@@ -193,6 +194,7 @@ def finish(prop, results, not_run, opts, meta, t0, tier, seed):
             nontrivial_scen += 1
         if not r.get("complete", True):
             incomplete += 1
+            incomplete_keys.append(key)
         if len(samples) < 4 and r.get("samples"):
             s = dict(r["samples"][0])
             s["scenario"] = key
@@ -266,6 +268,8 @@ def finish(prop, results, not_run, opts, meta, t0, tier, seed):
         print(f"HARNESS-ERROR property={prop} scenario={he['scenario']}\n  {he['error'][-2500:]}")
     for inc in inconclusive[:10]:
         print(f"INCONCLUSIVE property={prop} scenario={inc['scenario']} label={inc['label']}")
+    for k in incomplete_keys[:10]:
+        print(f"INCOMPLETE property={prop} scenario={k}: the path limit was reached before all feasible paths were explored")
     if not_run:
         print(f"NOT-RUN property={prop}: {not_run} scenarios did not finish inside the time budget")
     if harness_errors and code == 0:
